@@ -5,8 +5,8 @@
    the report: its body is a gap-free, overlap-free tiling of the source
    stretch it covers, every match is highlighted exactly once (in place or
    in the overlap list), a highlight is its escaped source span wrapped line
-   by line.  The grouping of matches into regions, the context lines around
-   them and the line numbering of generate_html are part of the executable
+   by line; the regions partition the matches.  The context lines around the
+   regions and the line numbering of generate_html are part of the executable
    model and are decided by the byte-exact correspondence run and the
    HTML-parsing oracle (see DESIGN.md), not yet by a theorem. *)
 From Coq Require Import String Sorting.Permutation.
@@ -88,6 +88,14 @@ Theorem C16_span_order : forall is_alpha is_word tex cm m h,
   make_hdata is_alpha is_word tex cm m = Ok h -> (h_beg h < h_end h)%Z.
 Proof. exact make_hdata_order. Qed.
 Print Assumptions C16_span_order.
+
+(* (9) the regions partition the matches: every match belongs to exactly one
+   region, in order, and no region is empty *)
+Theorem C16_regions_partition : forall hs, concat (group hs [] []) = hs.
+Proof. exact group_partition. Qed.
+Theorem C16_regions_nonempty : forall hs, Forall (fun r => r <> []) (group hs [] []).
+Proof. exact group_regions_nonempty. Qed.
+Print Assumptions C16_regions_partition.
 
 (* non-vacuity *)
 Example C16_example :
